@@ -305,8 +305,41 @@ func (g *Gen) matching() string {
 
 func (g *Gen) lblList() string {
 	pool := []string{"a", "b", "c"}
+	if g.chance(0.08) {
+		pool = append(pool, "__name__")
+	}
 	g.r.Shuffle(len(pool), func(i, j int) { pool[i], pool[j] = pool[j], pool[i] })
 	return strings.Join(pool[:g.r.Intn(3)], ",")
+}
+
+// twins: the same selector twice with different modifiers (time ranges), so that selects with equal
+// matchers but different ranges meet in one query
+func (g *Gen) twins(c *Case) (string, string) {
+	core := g.selectorCore(g.metric())
+	mods := []string{"", " @ start()", " @ end()", " offset " + durStr(g.pickI(5000, 60000, g.step)), fmt.Sprintf(" @ %d.000", c.Start/1000)}
+	a := mods[g.r.Intn(len(mods))]
+	b := mods[g.r.Intn(len(mods))]
+	wrap := func(x string) string {
+		switch g.r.Intn(4) {
+		case 0:
+			return "sum(" + x + ")"
+		case 1:
+			r := durStr(g.pickI(60000, 120000, 300000))
+			return "rate(" + core + "[" + r + "]" + strings.TrimPrefix(x, core) + ")"
+		}
+		return x
+	}
+	k := g.r.Intn(4)
+	if k == 1 {
+		r := durStr(g.pickI(60000, 120000, 300000))
+		r2 := durStr(g.pickI(60000, 120000, 300000, 600000))
+		return "rate(" + core + "[" + r + "]" + a + ")", "rate(" + core + "[" + r2 + "]" + b + ")"
+	}
+	_ = wrap
+	if k == 0 {
+		return "sum(" + core + a + ")", "sum(" + core + b + ")"
+	}
+	return core + a, core + b
 }
 
 func (g *Gen) binExpr(c *Case, d int) string {
@@ -325,6 +358,10 @@ func (g *Gen) binExpr(c *Case, d int) string {
 	if op == "^" {
 		// keep powers in a range where Go's math.Pow and the C library agree (no denormals)
 		return "(" + g.vectorExpr(c, d-1) + " ^ " + g.pick("2", "0.5", "-1", "3", "0", "1") + ")"
+	}
+	if g.chance(0.12) {
+		x, y := g.twins(c)
+		return "(" + x + " " + op + " " + y + ")"
 	}
 	switch g.r.Intn(4) {
 	case 0:
@@ -596,6 +633,13 @@ func (g *Gen) window(c *Case) {
 			c.End += g.r.Int63n(c.Step)
 		}
 		g.step = c.Step
+	}
+	if g.chance(0.12) {
+		// sub-millisecond parts: the engines truncate to milliseconds, the grid must not change
+		c.StartNs = g.r.Int63n(1000000)
+		if !c.Instant() {
+			c.EndNs = g.r.Int63n(1000000)
+		}
 	}
 	c.Lookback = g.pickI(300000, 300000, 300000, 60000, 5000, 1000, 1, 600000, g.step, g.step+1, g.step-1)
 	if c.Lookback <= 0 {
